@@ -47,6 +47,10 @@ def random_names(rng, n):
              "%%", "%4", "%zz", "+", "a+b", "a b", " ", "\r\nHost: evil", "x HTTP/1.1\r\nX-Injected: y", "../../profiles/minecraft", "/", "?", "??", "=", "==", "&",
              "&&", "username", "serverId", "&serverId", "=&=", "\x00", "a\x00b", "\x7f", "\t", "a\tb", "\x1b[31m", "\u0080", "ÿ", " ", "﻿x", "\U0001F600",
              "\U0010FFFF", "x" * 255, "\U0001F600" * 63, "&" * 255, "%41" * 85, "é" * 127, "Steve", "Notch", "jeb_", "a", ""]
+    # a harmless-looking prefix of every length up to 40 characters (and a few longer ones), then URL syntax: whatever part of a name a
+    # shortcut looks at, the rest is still the client's text
+    for k in list(range(1, 41)) + [63, 64, 65, 127, 128, 200]:
+        fixed.append(("Player_123456789_abcdefghijklmnopqrstuvwxyz" * 6)[:k] + "&serverId=evil#")
     out = [(s, "crafted") for s in fixed]
     while len(out) < n:
         kind = rng.randrange(8)
@@ -117,6 +121,15 @@ def collect(tier, wd, seed):
             cases.append({"i": i, "name": list(rep_name), "kind": "repeated", "script": "ok", "sid": base["sid"], "secret": sec, "pubkey": base["pubkey"],
                           "digest": list(hashlib.sha1(bytes.fromhex(base["sid"]) + bytes.fromhex(sec) + bytes.fromhex(base["pubkey"])).digest()),
                           "reply_id": "%032x" % (0xC12 << 64 | i), "reply_name": "Player%d" % i})
+    # ... a login right after one that was given up on in mid-request (the connection deadline passed): own adapter per case (own server id)
+    for j, (pname, prev) in enumerate(((b"Steve", "Earlier"), (b"Alex", "Other&x=y"), ("N\u00e9xt".encode(), "Steve"))):
+        i = len(cases) + 1
+        base = configs[(j + 1) % len(configs)]
+        sid = (b"abandoned-%d" % j).hex()
+        cases.append({"i": i, "name": list(pname), "kind": "after-abandoned", "script": "ok", "sid": sid, "secret": base["secret"], "pubkey": base["pubkey"],
+                      "abandonedBefore": prev,
+                      "digest": list(hashlib.sha1(bytes.fromhex(sid) + bytes.fromhex(base["secret"]) + bytes.fromhex(base["pubkey"])).digest()),
+                      "reply_id": "%032x" % (0xC12 << 64 | i), "reply_name": "Player%d" % i})
     # ... and two logins with the same claimed name that overlap in time (the service takes 300 ms to answer): one record per pair
     for j, pname in enumerate((b"Twin", b"twin", "Zwilling\u00e9".encode())):
         base = configs[(j + 1) % len(configs)]
